@@ -336,6 +336,12 @@ func Run(tier string, seed uint64, modelPath, repo string, out *res.Result) erro
 			out.Hit("meta:base-" + base.Status)
 			continue
 		}
+		if base.HeadBox || mo.HeadBox {
+			// <head> / <style> generate boxes in this document (a generated rule out-ranks the guard
+			// sheet): the text of the <style> element is drawn, so editing it legitimately changes the trace
+			out.Hit("meta:skipped-head-displayed")
+			continue
+		}
 		out.ModelCalls++ // here: traces compared between two runs of the implementation
 		if mo.Status == "ok" && mo.Trace == base.Trace {
 			out.Hit("meta:same")
@@ -514,11 +520,11 @@ func shrinkOne(pool *Pool, f failure) res.Finding {
 			vc := d.Case()
 			vc.LimitMS, vc.MaxPages = 20000, maxPages(vc)
 			bo := pool.One(bc)
-			if bo.Status != "ok" {
+			if bo.Status != "ok" || bo.HeadBox {
 				return false
 			}
 			vo := pool.One(vc)
-			return vo.Status == "ok" && vo.Trace != bo.Trace
+			return vo.Status == "ok" && !vo.HeadBox && vo.Trace != bo.Trace
 		}
 	case f.key == "memory":
 		budget = 8
